@@ -116,7 +116,15 @@ def matrix(repo, chk):
         ok_close = ok_close and top in struct_body and struct_body.index(top) == len(struct_body) - 1
     chk.expect(ok_close or zero_init, 'C19.1d', 'R4', fn.site(closing[0]) if closing else fn.site(top_if), f'for i in range({cursor}, n_features): X[i] = feature', 'rows after the last structured feature are filled', 'after the structure has been processed the remaining rows range(cursor, n_features) must be filled: otherwise they hold uninitialised memory')
     # 2 placement: each structured store has its own gap fill
-    cfg_stores = [st for st in stores if isinstance(st.value, ast.Name) and any(isinstance(d, ast.Assign) and isinstance(d.targets[0], ast.Name) and d.targets[0].id == st.value.id and _is_gen_call(d.value) and d.value.func.attr == '_configure_generate_feature' and d.lineno < st.lineno and st.lineno - d.lineno < 14 for d in own_nodes(fn.node))]
+    def _reaching_def(st):
+        blk = par.get(st)
+        body = blk.body if st in getattr(blk, 'body', []) else getattr(blk, 'orelse', [])
+        pos = body.index(st)
+        for d in reversed(body[:pos]):
+            if isinstance(d, ast.Assign) and isinstance(d.targets[0], ast.Name) and isinstance(st.value, ast.Name) and d.targets[0].id == st.value.id:
+                return d
+        return None
+    cfg_stores = [st for st in stores if isinstance(st.value, ast.Name) and _reaching_def(st) is not None and _is_gen_call(_reaching_def(st).value) and _reaching_def(st).value.func.attr == '_configure_generate_feature']
     chk.require_count('structured feature stores', len(cfg_stores), 2)
     for st in cfg_stores:
         blk = par.get(st)
@@ -146,8 +154,9 @@ def feature(repo, chk):
     m = fn.module
     E = lambda s: expected_term(m, s)
     rets = returns(fn)
-    ok_ret = len(rets) == 1 and ast.unparse(rets[0].value) in ("sampled_values.astype('int32')", 'sampled_values.astype(np.int32)')
-    chk.expect(ok_ret, 'C19.3c', 'R8', fn.site(rets[0]) if rets else fn.site(), ast.unparse(rets[0]) if rets else '', 'features are returned as int32', "_generate_feature must return sampled_values.astype('int32')")
+    rv = rets[0].value if len(rets) == 1 else None
+    ok_ret = isinstance(rv, ast.Call) and isinstance(rv.func, ast.Attribute) and rv.func.attr == 'astype' and isinstance(rv.func.value, ast.Name) and len(rv.args) == 1 and ast.unparse(rv.args[0]) in ("'int32'", 'np.int32', 'numpy.int32')
+    chk.expect(ok_ret, 'C19.3c', 'R8', fn.site(rets[0]) if rets else fn.site(), ast.unparse(rets[0]) if rets else '', 'features are returned as int32', "_generate_feature must return <drawn values>.astype('int32')")
     out = rets[0].value.func.value.id if ok_ret else 'sampled_values'
     # every definition of the returned vector draws from vec (or appends vec)
     defs = [n for n in own_nodes(fn.node) if isinstance(n, ast.Assign) and isinstance(n.targets[0], ast.Name) and n.targets[0].id == out]
@@ -203,7 +212,8 @@ def naive(repo, chk):
     ok_t = len(td) == 1 and ast.unparse(td[0].value) in (f'{S}[:, 30]', f'{S}[:, 30].copy()')
     T = td[0].targets[0].id if td else 'target'
     thr = [n for n in own_nodes(fn.node) if isinstance(n, ast.Assign) and isinstance(n.targets[0], ast.Subscript) and isinstance(n.targets[0].value, ast.Name) and n.targets[0].value.id == T]
-    ok_thr = sorted(ast.unparse(x) for x in thr) == sorted([f'{T}[{T} < 40] = 0', f'{T}[{T} > 39] = 1'])
+    got_thr = sorted((repr(term_of(fn, x.targets[0].slice, inline=False)), ast.unparse(x.value)) for x in thr)
+    ok_thr = got_thr == sorted([(repr(E(f'{T} < 40')), '0'), (repr(E(f'{T} > 39')), '1')])
     others = [n for n in own_nodes(fn.node) if isinstance(n, ast.Call) and (m.dotted(n.func) or '').startswith('numpy.random.') and n is not (sd[0].value if sd else None)]
     chk.expect(ok_t and ok_thr and not others, 'C19.7b', 'R15', fn.site(td[0]) if td else fn.site(), '; '.join(ast.unparse(x) for x in td + thr), 'the label is a deterministic step function of the needle column 30 alone (no noise)',
                'the label must be column 30 of the sample thresholded at 40 (0 below, 1 from 40), with no further randomness')
